@@ -6,13 +6,17 @@ import h4api
 from h4api import CBuf, DFNT, i32arr
 
 TY = {"i8": (20, "b"), "u8": (21, "B"), "i16": (22, "h"), "u16": (23, "H"), "i32": (24, "i"), "u32": (25, "I"),
-      "f32": (5, "f"), "f64": (6, "d"), "c8": (4, "c"), "uc8": (3, "B")}
+      "f32": (5, "f"), "f64": (6, "d"), "c8": (4, "c"), "uc8": (3, "B"),
+      # little-endian flavours (DFNT_LITEND | type): same values in memory, other byte order in the file
+      "li16": (0x4000 | 22, "h"), "lu32": (0x4000 | 25, "I"), "lf32": (0x4000 | 5, "f"), "lf64": (0x4000 | 6, "d")}
 TYNAME = {v[0]: k for k, v in TY.items()}
 KMAX = 16
 DIMSLOT = {"d10": ("s1", 0), "d20": ("s2", 0), "d21": ("s2", 1)}
 
 
 def val(ty, k, n):
+    if ty[0] == "l" and ty[1:] in TY:      # little-endian flavour: the values of the base type
+        ty = ty[1:]
     if ty in ("i8",):
         return ((k * 37 + n * 11) % 200) - 100
     if ty in ("u8", "uc8"):
